@@ -34,6 +34,13 @@ Pay(g, i, chips, isWager) ==
                            !.maxWager = IF g.meta.limit = "pot" THEN rp + g.prs ELSE g.maxWager]
        IN IF isWager /\ g.cw < w THEN BecomeRaiser([g1 EXCEPT !.cw = w], i) ELSE g1
 
+\* the end of a betting round (game.go ResetAllPlayerStatus): wagers move to the pot, the stack becomes the street-start stack
+ResetAllPlayerStatus(g) ==
+  [g EXCEPT !.P = [i \in Seats(g) |->
+     LET p == g.P[i] IN
+     [p EXCEPT !.allowed = <<>>, !.pot = p.pot + p.wager, !.wager = 0, !.init = p.stack,
+               !.did = IF p.fold THEN "fold" ELSE IF p.stack = 0 THEN "allin" ELSE ""]]]
+
 (* ---- what PayProof.tla proves about Pay, and what MCHoldem checks of every reachable state (StructOK) ---- *)
 \* the record structure of a game state and of a player
 GF == {"n", "meta", "ev", "round", "cur", "raiser", "cw", "prs", "miniBet", "maxWager", "roundPot", "deckPos",
